@@ -547,3 +547,15 @@ Proof.
   unfold step. cbn [ls_stack]. rewrite Ht.
   destruct Hq as [-> | ->]; cbn; rewrite Hs; cbn; reflexivity.
 Qed.
+
+(* more fuel never changes a result that was not cut short *)
+Definition t_done (r : tokres) : Prop := match r with TUnsupported => False | _ => True end.
+Lemma tapp_done o r : t_done (tapp o r) -> t_done r.
+Proof. destruct r; cbn; auto. Qed.
+Lemma lex_filtered_mono : forall n f st line x, t_done (lex_filtered n f st line x) -> forall k, lex_filtered (n + k) f st line x = lex_filtered n f st line x.
+Proof.
+  induction n as [|n IH]; intros f st line x H k; [contradiction|].
+  cbn [Nat.add lex_filtered] in *. destruct (step st x) as [[ty v] st' dl rest|st' dl rest|c| |]; try reflexivity.
+  - destruct (filt_step f (Tok ty v line) st') as [[outs f'] st'']. rewrite IH; [reflexivity|]. now apply tapp_done in H.
+  - now apply IH.
+Qed.
